@@ -58,6 +58,10 @@ pub struct SCase {
     /// order in which a control run executes the threads' programs (empty = 0, 1, 2, ...)
     #[serde(default)]
     pub order: Vec<usize>,
+    /// sequential prefix executed before the threads start (C13: the cache is filled first, so that
+    /// the concurrent part consists of hits and conditional invalidations only)
+    #[serde(default)]
+    pub warm: Vec<SOp>,
 }
 
 #[derive(Clone, Debug, PartialEq, Serialize, Deserialize)]
@@ -434,6 +438,50 @@ fn fp_of_key(case: &SCase, s: &FnSpec, k: Key) -> usize {
     crate::corpus::fp_probe(s.id, sc.err, sc.size as usize)
 }
 
+/// number of body executions recorded when the sequential prefix (`SCase::warm`) had finished
+static WARM_EXECS: std::sync::atomic::AtomicUsize = std::sync::atomic::AtomicUsize::new(0);
+
+/// C13 after a concurrent phase that stored nothing (only hits and conditional invalidations ran
+/// next to each other): the bookkeeping must be as if the removed entries had never been stored,
+/// so filling the cache up to its limit with keys never used before must not evict anything.
+/// (A store racing with an invalidation may legitimately leave a queue key without an entry -
+/// tolerated by C18's text - which is why executions in the concurrent phase switch this off.)
+fn c13_fill_probe(case: &SCase, f: u16, s: &FnSpec, live: &BTreeSet<Key>, strs: &BTreeSet<String>) {
+    let n = match s.limit {
+        Some(n) => n,
+        None => return,
+    };
+    if s.ttl.is_some() || s.max_memory.is_some() || s.has_inv_on || s.has_cache_if || s.is_result || s.family == "nested" {
+        return;
+    }
+    let w0 = WARM_EXECS.load(Ordering::Relaxed);
+    if world::with(|w| w.execs.iter().skip(w0).any(|e| e.fn_id == f)) {
+        count("probe.c13_fill_skipped_concurrent_store");
+        return;
+    }
+    let used: BTreeSet<Key> = case.warm.iter().chain(case.threads.iter().flatten()).filter_map(|op| match op {
+        SOp::Call { f: g, k } if *g == f => Some(*k),
+        _ => None,
+    }).collect();
+    let fresh: Vec<Key> = (0..s.nkeys).filter(|k| !used.contains(k) && !live.contains(k)).collect();
+    let room = n.saturating_sub(live.len());
+    let mut expect: BTreeSet<String> = strs.clone();
+    for k in fresh.into_iter().take(room) {
+        let _ = (s.call)(k);
+        let now = list_keys(s.reg_name).unwrap_or_default();
+        let lost: Vec<&String> = expect.iter().filter(|x| !now.contains(*x)).collect();
+        if !lost.is_empty() {
+            fail(
+                "early_eviction_after_invalidation",
+                &["C13"],
+                format!("{} [{}]: after hits and conditional invalidations (no store ran concurrently) {} entries were cached; storing the fresh key {k} evicted {lost:?} although the limit is {n}", s.fn_name, s.attrs, expect.len()),
+            );
+        }
+        expect = now;
+        count("probe.c13_fill_store_after_invalidation");
+    }
+}
+
 fn l2_quiescence(case: &SCase, prop: &str) {
     for f in &case.fns {
         let s = spec(*f);
@@ -463,6 +511,9 @@ fn l2_quiescence(case: &SCase, prop: &str) {
             if total > m {
                 fail("memory_exceeded_after_concurrency", &["C18"], format!("{} [{}] holds {total} bytes at quiescence, max_memory {m}: {:?}", s.fn_name, s.attrs, strs));
             }
+        }
+        if prop == "C13" && !case.warm.is_empty() {
+            c13_fill_probe(case, *f, s, &keys, &strs);
         }
         if !case.probe || s.family == "nested" {
             // (a call of a nested body looks up and stores other tuples too, so "n fresh stores"
@@ -555,7 +606,7 @@ pub fn history_checks(case: &SCase, rp: &Report, prop: &str) -> Option<(String, 
             if s.ttl.is_some() || s.max_memory.is_some() || s.has_inv_on || s.has_cache_if || s.is_result || s.family == "nested" {
                 continue;
             }
-            let distinct: BTreeSet<Key> = case.threads.iter().flatten().filter_map(|op| match op {
+            let distinct: BTreeSet<Key> = case.warm.iter().chain(case.threads.iter().flatten()).filter_map(|op| match op {
                 SOp::Call { f, k } if *f == c.f => Some(*k),
                 _ => None,
             }).collect();
@@ -638,6 +689,13 @@ pub fn run_case(case: Arc<SCase>, prop: String) {
         reg_scenario(&case);
         return;
     }
+    if !case.warm.is_empty() {
+        fastrand::seed(mix(&[case.fastrand_seed, 99]));
+        for op in &case.warm {
+            l2_op(&case, op);
+        }
+    }
+    WARM_EXECS.store(world::with(|w| w.execs.len()), Ordering::Relaxed);
     if case.sequential {
         let order: Vec<usize> = if case.order.is_empty() { (0..case.threads.len()).collect() } else { case.order.clone() };
         for t in order {
@@ -826,7 +884,7 @@ pub fn gen_case(prop: &str, seed: u64) -> (SCase, Sched) {
                 });
             }
         }
-        return (SCase { kind: Kind::Reg, fns, threads: vec![ops], shards, salt, fastrand_seed, probe: false, sequential: false, order: vec![] }, sched);
+        return (SCase { kind: Kind::Reg, fns, threads: vec![ops], shards, salt, fastrand_seed, probe: false, sequential: false, order: vec![], warm: vec![] }, sched);
     }
     let l1 = matches!(prop, "C18" | "C17" | "C16") && r.chance(1, 3);
     let nthreads = r.range(2, 3) as usize;
@@ -858,7 +916,7 @@ pub fn gen_case(prop: &str, seed: u64) -> (SCase, Sched) {
             }
             threads.push(ops);
         }
-        return (SCase { kind: Kind::L1(p), fns: vec![], threads, shards, salt, fastrand_seed, probe: true, sequential: false, order: vec![] }, sched);
+        return (SCase { kind: Kind::L1(p), fns: vec![], threads, shards, salt, fastrand_seed, probe: true, sequential: false, order: vec![], warm: vec![] }, sched);
     }
     // L2 program
     let pool: Vec<&FnSpec> = SPECS
@@ -961,5 +1019,37 @@ pub fn gen_case(prop: &str, seed: u64) -> (SCase, Sched) {
         }
         threads.push(ops);
     }
-    (SCase { kind: Kind::L2, fns, threads, shards, salt, fastrand_seed, probe: matches!(prop, "C18"), sequential: false, order: vec![] }, sched)
+    let mut warm = Vec::new();
+    if prop == "C13" && r.chance(1, 2) {
+        // fill first, then only hits race with conditional invalidations: one cache, one victim key
+        let f = fns[0];
+        let s = spec(f);
+        let m = (s.limit.unwrap_or(1) as u64).min((s.nkeys as u64).saturating_sub(1));
+        if m >= 1 {
+            fns.truncate(1);
+            for k in 0..m {
+                warm.push(SOp::Call { f, k: k as Key });
+            }
+            let v = r.below(m) as Key;
+            threads.clear();
+            let mut hits = Vec::new();
+            for _ in 0..r.range(1, 2) {
+                hits.push(SOp::Call { f, k: v });
+            }
+            threads.push(hits);
+            let mut mask = 1u8 << v;
+            if r.chance(1, 3) {
+                mask |= 1u8 << (r.below(m) as u8);
+            }
+            threads.push(vec![SOp::InvWith { name: s.reg_name.to_string(), mask }]);
+            if nthreads > 2 {
+                let mut other = Vec::new();
+                for _ in 0..r.range(1, 3) {
+                    other.push(SOp::Call { f, k: r.below(m) as Key });
+                }
+                threads.push(other);
+            }
+        }
+    }
+    (SCase { kind: Kind::L2, fns, threads, shards, salt, fastrand_seed, probe: matches!(prop, "C18"), sequential: false, order: vec![], warm }, sched)
 }
